@@ -1,4 +1,5 @@
 """C16 Globs match as documented and directory pruning is conservative (shape I, engine E3)."""
+from .. import common as C
 from .. import unitcheck as U
 
 ID = "C16"
@@ -8,7 +9,7 @@ RULE = ("all globs of <=K tokens over a 26-token alphabet (literals incl. . - + 
         "{a,b,z-with-dot,.,-,A,/,$,*} x ignore-case on/off (quick K=3,L=4; thorough K=4,L=4, K=3,L=5 and K=5,L=3); oracle 1: "
         "independent backtracking matcher == Pattern::matches; oracle 2: every ancestor directory of a matching path "
         "passes matches_partially and PathSelector::matches_dir; oracle 3: as --exclude, no non-excluded file lies "
-        "below a refused directory unless an ancestor is itself fully matched. distinct_nontrivial = number of "
+        "below a refused directory unless an ancestor is itself fully matched; command-line cross-check: every glob of <=2 (thorough 3) tokens given to the real binary as --name, --path and --exclude, with and without -i, on a fixed tree of 16 files: the selected set must be the reference matcher's (files below a fully excluded directory: don't care). distinct_nontrivial = number of "
         "(glob, path, case-mode) triples in which the glob matched (each triple is distinct by construction).")
 ASSUMPTIONS = ["'[!..]' may or may not match '/' (documentation silent): both accepted",
                "token sequences whose concatenation re-tokenises differently (e.g. '*' '*') are skipped; the merged "
@@ -19,6 +20,7 @@ SHARDS = 64
 
 def prepare(tier):
     U.build()
+    C.build_hooks()
 
 
 def cases(tier, seed):
@@ -30,10 +32,29 @@ def cases(tier, seed):
     for k, l in specs:
         n = SHARDS if k <= 3 else (SHARDS * 8 if k == 4 else SHARDS * 64)
         out += [{"tokens": k, "pathlen": l, "shard": "%d/%d" % (i, n)} for i in range(n)]
+    # command-line cross-check: --name / --path / --exclude x -i on the real binary over a fixed tree
+    n = 32 if tier == "quick" else 256
+    out += [{"cli": True, "tokens": 2 if tier == "quick" else 3, "shard": "%d/%d" % (i, n)} for i in range(n)]
     return out
 
 
 def evaluate(case):
+    if case.get("cli"):
+        with C.Scratch() as sc:
+            args = ["glob", "--cli", "--fclones", C.FCLONES, "--tree", sc.tree, "--tokens", str(case["tokens"])]
+            if "one" in case:
+                viol, summ = U.run_unit(args + ["--one", case["one"]])
+            else:
+                viol, summ = U.run_unit(args + ["--shard", case["shard"]])
+        vs = []
+        for v in viol:
+            ex = v["examples"][0]
+            d = dict(v["sig"])
+            d["detail"] = "%d case(s), e.g. %s" % (v["count"], ex)
+            vs.append(d)
+        return {"violations": vs, "evaluations": summ["evaluations"],
+                "counters": {"cli_runs": summ["globs"], "cli_matches": summ["matches"]},
+                "outcome": "cli_ok" if not viol else "cli_violations", "sample": {"case": case, "summary": summ}}
     if "one" in case:
         args = ["glob", "--one", case["one"], "--pathlen", str(case.get("pathlen", 4))]
         if case.get("ic"):
@@ -71,4 +92,6 @@ def finish(stats, tier):
         out.append("pruning oracle never exercised")
     if not c.get("exclude_checks"):
         out.append("exclude oracle never exercised")
+    if not c.get("cli_matches"):
+        out.append("command-line cross-check never selected a file")
     return out
